@@ -5,7 +5,7 @@ from bv.hyp import run_given
 
 ID = "C02"
 LEVEL = "exploration"
-RULE = ("generated families x value trees drawn to satisfy the declaration (lengths/counts/conditions/selector keys agree, "
+RULE = ("generated families (fields with and without declared defaults) x value trees drawn to satisfy the declaration (lengths/counts/conditions/selector keys agree, "
         "delimiter-free bodies, boundary integers, empty and long lists, absent optionals, nested packets), built through "
         "constructor keywords and through attribute assignment; oracle: pack() == independent reference encoding (in-order "
         "concatenation at declared positions, '.' in holes), unpack(pack()) succeeds with field-for-field equal values and the "
